@@ -65,6 +65,8 @@ def variants(cfgname, thorough):
         v.append(("typed", "sym", "plain"))
         v.append(("global", "str", "plain"))
         v.append(("global", "sym", "plain"))
+        for k in ["math", "math2", "json", "global"]:
+            v.append((k, "tmpl", "plain"))
     elif cfgname == "chain":
         for k in ["plain", "func", "array", "cls", "nullproto", "strobj", "args"]:
             for m in ["str", "sym", "big", "idx" if k in ("plain", "func", "cls", "nullproto") else "neg0"]:
@@ -87,13 +89,13 @@ def variants(cfgname, thorough):
         if k == "plain" and k2 == "plain":
             out.append((k, m, k2))
         else:
-            seen.setdefault((k, k2), []).append(m)
-    for (k, k2), ms in sorted(seen.items()):
+            seen.setdefault((k, k2, m == "tmpl"), []).append(m)
+    for (k, k2, _), ms in sorted(seen.items()):
         out.append((k, ms[(seed() + len(out)) % len(ms)], k2))
     return out
 
 
-def run_config(chk, wd, binp, name, thorough, kinds_filter=None, devmap=None):
+def run_config(chk, wd, binp, name, thorough, kinds_filter=None, devmap=None, vs_override=None, quick_share=4):
     c = CONFIGS[name]
     gwd = os.path.join(wd, name)
     os.makedirs(gwd, exist_ok=True)
@@ -105,7 +107,7 @@ def run_config(chk, wd, binp, name, thorough, kinds_filter=None, devmap=None):
         g, st = edges.build_graph("Obj", cfgtext, gwd, init, obs0=init, timeout=1200)
     chk.add("states", st["states"])
     chk.add("transitions", st["transitions"])
-    vs = variants(name, thorough)
+    vs = vs_override if vs_override is not None else variants(name, thorough)
     if kinds_filter:
         vs = [v for v in vs if v[0] in kinds_filter]
     tours = 0
@@ -118,7 +120,7 @@ def run_config(chk, wd, binp, name, thorough, kinds_filter=None, devmap=None):
         what = "Obj/%s kind=%s key=%s other=%s" % (name, kind, keymap, kind2)
         share = None
         if not thorough and not (kind == "plain" and kind2 == "plain") and name in ("cell", "chain"):
-            share = (seed() + len(jobs), 4)      # quick: a rotating quarter of the edge set for non-plain kinds
+            share = (seed() + len(jobs), quick_share)      # quick: a rotating slice of the edge set for non-plain kinds
         jobs.append(dict(what=what, args=["-adaptor", ad], tag="%s-%s-%s" % (kind, keymap, kind2), share=share,
                          meta={"module": "Obj", "config": name, "kind": kind, "keymap": keymap, "kind2": kind2}))
     with phase(chk, "replay-" + name):
